@@ -52,6 +52,7 @@ func vfC07Size(failAt int) uintptr {
 
 // MapRegion: reserves through the real EarlyReserveRegion, maps exactly the
 // pages needed to cover size, consecutive pages to consecutive frames.
+//
 //verif:bounds size in [0, 4 pages] or [2^64-8192, 2^64-1] (for these the map callback fails within 5 calls); cursor arbitrary aligned; frame < 2^40; map failure at an arbitrary call index
 func Verif_C07_mapregion() {
 	cur := zzverif.Uintptr("cursor")
